@@ -96,7 +96,7 @@ def setup(ex, fi, con):
             continue
         if ty.kind == "ignored":
             continue
-        v = Val(ty, z3.Const(nm, ty.sort()))
+        v = Val(ty, z3.Const(nm if nm != "_" else "underscore_", ty.sort()))
         ex.assume_type(v)
         if ty.kind == "dict":
             from . import models
@@ -104,6 +104,9 @@ def setup(ex, fi, con):
         locals_[nm] = v
         if alias:
             locals_[alias] = v
+        for an, pn in con.aliases.items():
+            if pn == nm:
+                locals_[an] = v
     fr = Frame(fi, locals_, self_val, cls=cls, contract=con, parent_env=getattr(fi, "_env", None))
     return fr
 
@@ -126,6 +129,9 @@ def run_path(fi, con, prefix):
     try:
         fr = setup(ex, fi, con)
         assume_axioms(ex, fr)
+        is_init = fi.name == "__init__"
+        ex.self_stack = [fr.self_val.t] if (fr.self_val is not None and fr.self_val.t is not None) else []
+        speceval.assume_invariants(ex, fi, exclude=ex.self_stack if is_init else ())
         for c in con.requires:
             ex.assume(speceval.clause(ex, c, fr))
         heap0, alloc0 = ex.snapshot()
@@ -164,8 +170,18 @@ def run_path(fi, con, prefix):
             for c in con.ensures:
                 g = speceval.clause(ex, c, fr)
                 ex.oblige("post", c.label, g, c.tags, loc, c.text)
+            if con.value is not None and not con.ensures:
+                was = fr.spec
+                fr.spec = True
+                try:
+                    vv = ex.ev(con.value_ast, fr)
+                finally:
+                    fr.spec = was
+                ex.oblige("post", "value", speceval.same_term(ex, res, vv), con.tags, loc, "result == " + con.value)
             h0 = {k: v for k, v in fr.old[0].items() if v is not None}
             speceval.frame_obligations(ex, fr, con, h0, alloc0, loc)
+            if not con.pure:
+                speceval.invariant_obligations(ex, fi, h0, alloc0, loc)
         elif kind.startswith("raise"):
             fr.result = vnone()
             for c in con.raises:
